@@ -239,7 +239,7 @@ def c22_2(cx):
              {"callee": "interned::insert_unique_erased"}, key="W4' interned::insert_unique_erased")
 
 
-@ob("C22.1", ["C22", "C14", "C15", "C21"], "a guard whose destructor does not release (or that is forgotten without an explicit release) leaks a stack frame, a claim, a flag or a provisional memo when user code unwinds", kind="GUARDTYPE")
+@ob("C22.1", ["C22", "C14", "C15", "C21"], also=["C06"], nec="a guard whose destructor does not release (or that is forgotten without an explicit release) leaks a stack frame, a claim, a flag or a provisional memo when user code unwinds", kind="GUARDTYPE")
 def c22_1(cx):
     """Guard table: ActiveQueryGuard (Drop -> QueryStack::pop -> ActiveQuery::clear resets everything unconditionally; forget only after pop_into_revisions / pop_detached_completion), DisableLocalCancellationGuard (Drop restores was_disabled), PoisonProvisionalIfPanicking (Drop inserts the poison memo when panicking; constructed before the iteration loop), TableDropGuard x2 (Drop drops the remaining memos; forget only after take_memos returned), ClaimGuard (C19.5)."""
     f = cx.facts
@@ -257,7 +257,12 @@ def c22_1(cx):
     cx.check(len(dec) == 1 and re.search(r"\(\$1\.len Sub(WithOverflow)? const:1\)", dec[0][2]) is not None, "pop_active_query decrements the stack length", dec[0][0] if dec else None, {"stores": [x[2] for x in dec]}, key="len-dec", body=pa)
     clr = cx.fn(r"^active_query::ActiveQuery::clear$")
     for rx, what in ((r"IndexSet::<T, S>::clear$", "input_outputs.clear()"), (r"^tracked_struct::DisambiguatorMap::clear$", "disambiguator_map.clear()"), (r"^tracked_struct::IdentityMap::clear$", "tracked_struct_ids.clear()")):
-        cx.must_call(clr, rx, "ActiveQuery::clear always runs " + what)
+        if "input_outputs" in what:
+            cx.must_call(clr, rx, "ActiveQuery::clear always runs " + what)
+        else:
+            # a frame reused after an unwind with stale disambiguators / identities hands out different ids (C06)
+            with cx.only("C22", "C14", "C15", "C21", "C06"):
+                cx.must_call(clr, rx, "ActiveQuery::clear always runs " + what)
     if "accumulator" in f.features:
         cx.must_call(clr, r"AccumulatedMap::clear$", "ActiveQuery::clear always clears the accumulated values")
     ch = [x for x in cx.stores(clr) if x[1].endswith(".cycle_heads")]
